@@ -140,8 +140,45 @@ def punch_block(gases, extra=()):
     return lines, heads
 
 
+def corpus_cases():
+    """fixed inputs run first in every run: the minimal replay of the known departure
+    `fixedV-numerical-negative-PR-pressure` and its default-settings neighbour"""
+    out = []
+    for knobs in (True, False):
+        gases = ["CO2(g)"]
+        pl, heads = punch_block(gases)
+        lines = (["KNOBS", " -numerical_fixed_volume true", " -force_numerical_fixed_volume true"] if knobs else []) + [
+            "SOLUTION 1", " temp 0", " -water 2", "GAS_PHASE 1", " -fixed_volume", " -volume 1", " -temperature 0", " CO2(g) 112.232"]
+        out.append(dict(kind="fixedV", db="phreeqc.dat", gases=gases, tc=0.0, vol=1.0, ptot=112.232, p_init=[112.232],
+                        heads=heads, input="\n".join(lines + pl + ["END"]) + "\n", corpus=True))
+    return out
+
+
+def bubble_case(rng, hist):
+    """fixed-pressure phase that starts empty over a solution holding dissolved gas: it must appear iff the equilibrium
+    partial pressures of the solution exceed the fixed pressure"""
+    tc = rng.uniform(0, 150)
+    gases = list(rng.choice([["CO2(g)", "H2O(g)"], ["CO2(g)"], ["CO2(g)", "Ntg(g)", "H2O(g)"], ["Mtg(g)", "CO2(g)"]]))
+    c = 10 ** rng.uniform(-2, 0)
+    lines = ["SOLUTION 1", f" temp {tc:.4f}", f" pH {rng.uniform(3.5, 5.5):.3f}", " units mol/kgw", f" C(4) {c:.5g}",
+             f" Na {rng.choice([0.01, 0.1, 0.5])}", " Cl 0.1 charge"]
+    if "Ntg(g)" in gases:
+        lines.append(f" Ntg {10 ** rng.uniform(-4, -2):.4g}")
+    if "Mtg(g)" in gases:
+        lines.append(f" Mtg {10 ** rng.uniform(-4, -2):.4g}")
+    ptot = float(f"{10 ** rng.uniform(-1.3, 1.8):.6g}")
+    lines += ["GAS_PHASE 1", " -fixed_pressure", f" -pressure {ptot:.6g}", " -volume 0", f" -temperature {tc:.4f}"]
+    lines += [f" {g} 0" for g in gases]
+    pl, heads = punch_block(gases)
+    hist["bubble"] = hist.get("bubble", 0) + 1
+    return dict(kind="fixedP", db="phreeqc.dat", gases=gases, tc=tc, vol=0.0, ptot=ptot, p_init=[0.0] * len(gases), heads=heads,
+                bubble=True, input="\n".join(lines + pl + ["END"]) + "\n")
+
+
 def real_case(rng, hist):
     """one real input: dict(kind, db, gases, input, meta...)"""
+    if rng.random() < 0.12:
+        return bubble_case(rng, hist)
     u = rng.random()
     if u < 0.30:
         kind = "fixedV"
